@@ -2,7 +2,7 @@
    both generic wire values (Base/Sx.v).  A request is (op arg ...). *)
 From Coq Require Import ZArith List Bool.
 From Mistletoe Require Import Base.Sx Base.PyStr Model.SpanTokenizer Model.Tree Model.TreeWire
-  Model.HtmlRenderer Spec.HtmlSpec Model.LatexRenderer Spec.LatexSpec Model.Contrib Model.DocLines.
+  Model.HtmlRenderer Spec.HtmlSpec Model.LatexRenderer Spec.LatexSpec Model.Contrib Model.DocLines Model.MarkdownRenderer.
 Import ListNotations.
 Local Open Scope Z_scope.
 
@@ -86,6 +86,19 @@ Definition op_lines (req : sx) : sx :=
                       | _ => doc_lines_of_list (split_lf s)
                       end)).
 
+(* ---- X-md : (9 normalize (L)|() tree) ; X-wrap : (10 (L)|() ((text wrap hard) ...)) ---- *)
+Definition optz (x : sx) : option Z := match x with SxL [SxZ z] => Some z | _ => None end.
+Definition op_md (req : sx) : sx :=
+  sx_of_str (render_md (mkMopts (bool_of_sx (sx_nth req 1))) (optz (sx_nth req 2)) (tok_of_sx (sx_nth req 3))).
+Definition frag_of_sx (x : sx) : frag :=
+  mkFrag (str_of_sx (sx_nth x 0)) (bool_of_sx (sx_nth x 1)) (bool_of_sx (sx_nth x 2)).
+Definition op_wrap (req : sx) : sx :=
+  let frs := map frag_of_sx (l_of_sx (sx_nth req 2)) in
+  SxL [SxL (map sx_of_str (make_words frs)); SxL (map sx_of_str (fragments_to_lines (optz (sx_nth req 1)) frs))].
+Definition op_prefix (req : sx) : sx :=
+  SxL (map sx_of_str (prefix_lines (map str_of_sx (l_of_sx (sx_nth req 1))) (str_of_sx (sx_nth req 2))
+                                   (match sx_nth req 3 with SxL [q] => Some (str_of_sx q) | _ => None end))).
+
 Definition dispatch (req : sx) : sx :=
   match z_of_sx (sx_nth req 0) with
   | 16 => op_tokenize req
@@ -93,6 +106,9 @@ Definition dispatch (req : sx) : sx :=
   | 80 => op_str req
   | 81 => op_check_html req
   | 17 => op_latex req
+  | 9 => op_md req
+  | 10 => op_wrap req
+  | 101 => op_prefix req
   | 15 => op_lines req
   | 18 => op_contrib req
   | 19 => op_toc req
